@@ -3,7 +3,8 @@ import LapyVerif.Generated.Dispatch
   Bridge: dispatch on the NAME of the geometry's type, observed on the real code with recording kernels: `compute_gradient`,
   `compute_divergence`, `compute_rotated_f` (lapy/diffgeo.py) and `Solver.__init__` (lapy/solver.py) hand the geometry and the argument (resp.
   the `lump` flag) to the kernel of the right mesh kind, pass its result on unchanged, and raise `ValueError` — before any kernel is called —
-  for every other object (and for `compute_rotated_f` of a tetrahedral mesh).
+  for every other object — also for objects whose type name merely resembles a supported one (`Mesh`, `Tria`, `Tet`, `TriaMesh2`, `triamesh`) —
+  and for `compute_rotated_f` of a tetrahedral mesh.
 -/
 namespace LapyVerif.Bridge
 open LapyVerif
@@ -12,18 +13,43 @@ theorem dispatch_facts : Gen.Dispatch.facts =
     [("compute_gradient(TriaMesh)", "-> tria_compute_gradient(geom, arg), result passed on"),
      ("compute_gradient(TetMesh)", "-> tet_compute_gradient(geom, arg), result passed on"),
      ("compute_gradient(VoxelGrid)", "ValueError"),
+     ("compute_gradient(Mesh)", "ValueError"),
+     ("compute_gradient(Tria)", "ValueError"),
+     ("compute_gradient(Tet)", "ValueError"),
+     ("compute_gradient(TriaMesh2)", "ValueError"),
+     ("compute_gradient(triamesh)", "ValueError"),
      ("compute_divergence(TriaMesh)", "-> tria_compute_divergence(geom, arg), result passed on"),
      ("compute_divergence(TetMesh)", "-> tet_compute_divergence(geom, arg), result passed on"),
      ("compute_divergence(VoxelGrid)", "ValueError"),
+     ("compute_divergence(Mesh)", "ValueError"),
+     ("compute_divergence(Tria)", "ValueError"),
+     ("compute_divergence(Tet)", "ValueError"),
+     ("compute_divergence(TriaMesh2)", "ValueError"),
+     ("compute_divergence(triamesh)", "ValueError"),
      ("compute_rotated_f(TriaMesh)", "-> tria_compute_rotated_f(geom, arg), result passed on"),
      ("compute_rotated_f(TetMesh)", "ValueError"),
      ("compute_rotated_f(VoxelGrid)", "ValueError"),
+     ("compute_rotated_f(Mesh)", "ValueError"),
+     ("compute_rotated_f(Tria)", "ValueError"),
+     ("compute_rotated_f(Tet)", "ValueError"),
+     ("compute_rotated_f(TriaMesh2)", "ValueError"),
+     ("compute_rotated_f(triamesh)", "ValueError"),
      ("Solver(TriaMesh, lump=False)", "-> _fem_tria(geom, lump), stiffness / mass = its outputs: True"),
      ("Solver(TriaMesh, lump=True)", "-> _fem_tria(geom, lump), stiffness / mass = its outputs: True"),
      ("Solver(TetMesh, lump=False)", "-> _fem_tetra(geom, lump), stiffness / mass = its outputs: True"),
      ("Solver(TetMesh, lump=True)", "-> _fem_tetra(geom, lump), stiffness / mass = its outputs: True"),
      ("Solver(VoxelGrid, lump=False)", "ValueError"),
-     ("Solver(VoxelGrid, lump=True)", "ValueError")] := by
+     ("Solver(VoxelGrid, lump=True)", "ValueError"),
+     ("Solver(Mesh, lump=False)", "ValueError"),
+     ("Solver(Mesh, lump=True)", "ValueError"),
+     ("Solver(Tria, lump=False)", "ValueError"),
+     ("Solver(Tria, lump=True)", "ValueError"),
+     ("Solver(Tet, lump=False)", "ValueError"),
+     ("Solver(Tet, lump=True)", "ValueError"),
+     ("Solver(TriaMesh2, lump=False)", "ValueError"),
+     ("Solver(TriaMesh2, lump=True)", "ValueError"),
+     ("Solver(triamesh, lump=False)", "ValueError"),
+     ("Solver(triamesh, lump=True)", "ValueError")] := by
   decide
 
 end LapyVerif.Bridge
